@@ -1,233 +1,228 @@
+# pid, technique, level text, level note, design ref -- consumed by tools/gen_manifest.py
+COMMON_NOTE = (' Exploration jobs run in freshly forked processes; a case failing only after the preceding cases of its job is '
+               'reported with the job as replay. Bounds completed and caps hit are in the evidence file.')
+
 check(
-    'C18',
-    'bounded exhaustive enumeration of algebraic law instances on the real geometry classes',
-    'Every group/action/transform/area/grid law is evaluated on all orientation triples, all positions of a box '
-    'plus extreme coordinates, all transform triples over the box, all areas with bounds in [-2,2] and labelled '
-    'grids of all shapes up to 4x4; rotation results are compared with harness index arithmetic, not with the '
-    'library tables.',
-    'Coordinates are unbounded integers: the box and extremes are a bound, generalisation beyond it is an '
-    'assumption (affine operations, no branching on coordinate values).',
-    'DESIGN.md 3/C18',
+    'C01',
+    'bounded exhaustive enumeration of states x actions x random outcomes through a real GridWorld (debug checks on); BFS of reachable states of shipped configurations incl. hidden-attribute keys and several lineages; single-fault and in-place mutation of space members',
+    'Every universe state (agent on every cell incl. edges facing outward, any held item, unpaired telepods, three/four telepods of a '
+    'colour, nested boxes) x all actions x every built-in transition function alone, all ordered pairs (thorough) and the full chain x '
+    'every random outcome is stepped through GridWorld.functional_step: no exception, next state in the reference state space, finite '
+    'real reward, boolean termination (any/all), input unmodified; observations of all four observation functions lie in the declared '
+    'space and leave the state unchanged; out-of-space actions and non-actions raise ValueError under both debug-flag values and '
+    'change neither state, generator nor the memoised (stochastic) observation; StateSpace/ObservationSpace.contains agree with a '
+    'reference predicate on every state, all single-fault mutants and after in-place changes of one object; every reachable state '
+    'of the shipped configurations is searched for exceptions and membership failures.',
+    'Compositions limited to the stated alphabet of built-in components; custom components out of scope.' + COMMON_NOTE,
+    'DESIGN.md 3/C01, 8',
+)
+check(
+    'C02',
+    'exhaustive enumeration of action trees and directed paths, of all interleavings (merges) of per-environment operation lists, of all iteration orders of set-typed parameters; cross-process digest comparison over PYTHONHASHSEED values and process histories',
+    'Twin environments (same data, same seed; seeds include 0) are compared at every node of the complete action tree to depth 2-3 '
+    '(thorough 3-4) and along shortest paths to every reachable cell, with a debug-flag-off twin (also with observations read only '
+    'at the end), a used-then-reseeded twin and a tripwire on the library generator / numpy global / random module after every '
+    'operation; all 25 200 merges of two equally seeded environments, an unseeded environment of another layout that reads '
+    'observations, and global-noise operations leave each seeded history equal to its solo run; set-typed parameters are passed as '
+    'a set subclass iterating in each of the n! orders; trajectory digests are compared across fresh interpreter processes with '
+    'different PYTHONHASHSEED and different orders of the other configurations run in the process.',
+    'Seeds and hash seeds are finite sets rotated by VERIF_SEED; GymEnvironment.seed() out of scope.' + COMMON_NOTE,
+    'DESIGN.md 3/C02, 8',
+)
+check(
+    'C03',
+    'bounded exhaustive enumeration with deep-fingerprint / object-identity / differential-mutation oracles; exhaustive enumeration of cache histories; BFS comparing every lineage object with a freshly built equal state',
+    'For every universe state, action, chain and outcome: input fingerprint unchanged, ids of mutable components of state and next '
+    'state disjoint, scrambling either leaves the other unchanged, the returned state equals and hashes like a fresh build (hashes '
+    'primed beforehand), every reward/termination/observation component leaves its arguments unchanged, answers follow the value of '
+    'an object changed in place (observations, representations), fast_copy equals/hashes like the original. Every sequence (depth 3, '
+    'thorough 4; depth 5 over the colliding table queries) over 14 questions colliding on cache keys equals the cold answer (all '
+    'functools caches of the library cleared generically), also after a prologue overflowing the 10-entry table. Over the reachable '
+    'graphs of shipped configurations every object reached through a history answers like a freshly built equal state; the '
+    'functional observation is independent of earlier stateful use.',
+    'Sharing of instance-stateless objects (Floor, Wall, MovingObstacle) is not counted as aliasing.' + COMMON_NOTE,
+    'DESIGN.md 3/C03, 8',
+)
+check(
+    'C04',
+    'exhaustive enumeration of operation sequences (outer/inner reset and step, rejected step, reads, in-place turn + functional observation) replayed against a functionally driven twin with the same seed',
+    'All sequences of depth-1 over 11 operations and of full depth (3-5, thorough 4-6) over the 8 core operations - outer reset/step, '
+    'inner step/reset driven directly, a rejected out-of-space step, reads of inner/outer observation and state, in-place turn of '
+    'the current state followed by functional_observation - including operations before any reset, on shipped configurations, '
+    'empty 4x4 (episodes continue past termination) and a synthetic configuration whose stepping and observing both consume '
+    'randomness: after every operation state, reward, flag, observation, numeric representations and generator bit state equal '
+    'those of a twin driven only through the functional interface.',
+    'Three actions per configuration, finite seed set (rotated by VERIF_SEED).' + COMMON_NOTE,
+    'DESIGN.md 3/C04, 8',
+)
+check(
+    'C05',
+    'bounded exhaustive enumeration of labelled grids x poses x view areas x observation functions against a reference rigid transform, on one state object per case incl. in-place changes',
+    'Labelled grids (every cell a distinct object) of every shape H,W in 1..4 (thorough 1..5) with opaque subsets x every agent cell x '
+    '4 headings x 193 view areas x the four observation functions evaluated in turn on ONE state object (transparent first and again '
+    'last): every cell is Hidden or equal to the object at the world cell given by the reference transform, shape/anchor/heading/held '
+    'item (also non-holdable ones) as specified, the state unchanged afterwards; after in-place swap / cell assignment on the view '
+    'rectangle corners / pose change the new observations are sound for the new value.',
+    'partially_occluded only with the agent on the bottom view row (documented precondition).' + COMMON_NOTE,
+    'DESIGN.md 3/C05, 8',
+)
+check(
+    'C06',
+    'complete enumeration of all opacity patterns of small views and worlds (Wall/Floor, closed/open-door and mixed encodings); reference flood fill, monotonicity and replacement (non-interference) oracles; large views at ray-count corners',
+    'All 2^(h*w) opacity patterns of views from 1x1 up to 3x5/4x3 (thorough 4x5) incl. one- and two-column views for '
+    'partially_occluded (every bottom-row anchor) and raytracing (every origin), each in three object encodings that must agree: own '
+    'cell visible, every visible cell linked to the agent by adjacent transparent visible cells, opening a visible opaque cell never '
+    'hides a cell; views with 128/256/512 rays; all Wall/Floor worlds up to 3x3 and elongated ones x poses x areas: shown cells obey '
+    'the chain law and replacing any hidden/out-of-view cell changes nothing; stochastic variant bounded by extreme scripted draws.',
+    'The u == 0.0 draw (measure zero) is not modelled; stochastic lower bound uses the library ray fan (verified by C19).' + COMMON_NOTE,
+    'DESIGN.md 3/C06, 8',
+)
+check(
+    'C07',
+    'bounded exhaustive enumeration of labelled grids x poses x areas x deterministic observation functions compared across all four world rotations (harness index arithmetic), in both function orders, plus in-place pose/grid changes',
+    'For every labelled grid (shapes 1..4 x 1..4, opaque subsets), pose, area and deterministic function (evaluated in registry order and '
+    'again in the opposite order) the observation of the world rotated by 1, 2, 3 quarter turns equals the original; a state object '
+    'turned/moved/written in place is observed like a freshly built equal state.',
+    'Bounds as reported.' + COMMON_NOTE,
+    'DESIGN.md 3/C07, 8',
 )
 check(
     'C08',
-    'bounded exhaustive enumeration of states x actions x random outcomes against a reference kinematics model, plus BFS of reachable states of shipped configurations',
-    'Every grid with at most k non-floor cells (k<=1 over the full 19-symbol alphabet, k=2 over a reduced one; all '
-    'shapes up to 3x3, thorough up to 4x4) x every agent cell x heading x held item x all 8 actions x every built-in '
-    'transition function, the 4 shipped chains and the full chain x every resolution of the random picks is executed '
-    'on the real code and the resulting pose compared with a reference; the reachable graphs of the shipped '
-    'configurations are searched breadth-first with the invariant "agent inside the grid on a non-blocking cell".',
-    'Bounds: grid sizes, k, alphabet, the listed chains; reset outcomes complete or deviation-bounded as reported.',
-    'DESIGN.md 3/C08',
+    'bounded exhaustive enumeration of states x actions x random outcomes against a reference kinematics model (in place and through transition_with_copy); BFS of shipped configurations with an edge oracle, hidden-attribute keys and several lineages; stateful and long-corridor walks',
+    'Every grid with <=k non-floor cells x every agent cell x heading x held item x 8 actions x every built-in transition function, the '
+    'shipped chains and the full chain x every random outcome: resulting pose compared with the reference; every explored edge of the '
+    'reachable graphs of shipped configurations obeys the reference kinematics and keeps the agent on a free cell; the stateful '
+    'interface is driven along shortest paths to every cell and past termination; reduced action lists; corridors of 131 and 260 '
+    'cells walked end to end.',
+    'Bounds: grid sizes, k, alphabet, the listed chains; reset outcomes complete or deviation-bounded as reported.' + COMMON_NOTE,
+    'DESIGN.md 3/C08, 8',
 )
 check(
     'C09',
     'bounded exhaustive enumeration of states x actions x random outcomes with an inventory (multiset) oracle and a reference pick-and-drop model; BFS inventory invariants',
-    'Same universe as C08 with held items: the multiset of non-floor objects plus the held item is compared before/after '
-    'every execution (box opening accounted for), pick-and-drop is compared with its reference, scenery cells are '
-    'compared cell by cell; key/door/exit/obstacle counts are invariants over every reachable state of the key-door, '
-    'obstacle, teleport configurations.',
-    'Bounds as reported in evidence; object alphabet = the 9 concrete types with 2 colours and nested boxes.',
-    'DESIGN.md 3/C09',
+    'Same universe as C08 with held items and nested boxes: the multiset of non-floor objects plus the held item (box contents '
+    'included) is compared before/after every execution, pick-and-drop with its reference, scenery cell by cell; chains run through '
+    'transition_with_copy; inventories are invariants over every reachable state of key-door, obstacle, teleport configurations.',
+    'Object alphabet = the 9 concrete types with 2 colours and nested boxes.' + COMMON_NOTE,
+    'DESIGN.md 3/C09, 8',
 )
 check(
     'C10',
-    'bounded exhaustive enumeration of door/box/held-item/pose/action combinations against the actuation table; inductive edge invariant over BFS of key-door configurations',
-    'Every door status x colour, box content (nested), held item (none, key of each colour, non-key objects), agent '
-    'pose relative to the door/box and action is executed through every built-in function and chain; every door/box '
-    'cell is compared with the reference table. On every edge of the reachable graph of the key-door configurations '
-    'a door status change must be a faced ACTUATE with a matching key; the agent is never beyond a non-open door.',
-    'Bounds as reported; the history property is established inductively over explored edges from LOCKED initial doors.',
-    'DESIGN.md 3/C10',
+    'bounded exhaustive enumeration of door/box/held-item/pose/action combinations against the actuation table (in place, via copy, via the stateful step, after re-posing); inductive edge invariant over BFS of key-door configurations',
+    'Every door status x colour (incl. colourless), box content (nested), held item (none, keys of each colour, non-key objects, an '
+    'instance of a Key subclass), pose and action through every built-in function and chain: every door/box cell compared with the '
+    'reference table; two equal doors / boxes through the copy path; env.step on nested boxes; agent re-posed through its transform '
+    'attribute after acting; on every reachable edge of key-door configurations a door status change is a faced ACTUATE with a '
+    'matching key.',
+    'The history property is established inductively over explored edges from LOCKED initial doors.' + COMMON_NOTE,
+    'DESIGN.md 3/C10, 8',
 )
 check(
     'C11',
-    'complete enumeration of every random outcome (scripted ChoiceRng choice tree) per layout, compared as outcome SETS with an order-agnostic nondeterministic reference model; numpy conformance replay',
-    'For every obstacle layout (<=3 obstacles, <=2 other cells, shapes up to 3x3 and 3x4/4x3) the set of final grids '
-    'over all random resolutions (obstacle identity tracked) must equal what the rules allow: contained in the union '
-    'over processing orders and containing all outcomes of at least one order. For every telepod layout (<=4 telepods, '
-    '2 colours) and agent cell the outcome set equals the other same-coloured telepods; unpaired telepods do not move '
-    'the agent and do not raise. Each layout is also replayed with real numpy seeds through a recording proxy.',
-    'The scripted generator models choice/integers/shuffle/random only; bound to numpy by conformance replays.',
-    'DESIGN.md 3/C11',
+    'complete enumeration of every random outcome (scripted ChoiceRng choice tree, vectorised draws supported) per layout, compared as outcome SETS with an order-agnostic nondeterministic reference model; numpy conformance replay; lineage and shared-instance cases',
+    'For every obstacle layout (<=3 obstacles, <=2 other cells, shapes up to 3x3 and 3x4/4x3) the set of final grids over all random '
+    'resolutions (identity tracked) equals what the rules allow for some processing order; for every telepod layout (<=4 telepods, 2 '
+    'colours; also one instance in several cells) and agent cell the outcome set equals the other same-coloured telepods; an agent on '
+    'any non-telepod object is never displaced; obstacle rules also hold on states reached through a history (obstacles moved, then a '
+    'box holding an obstacle opened).',
+    'The scripted generator models choice/integers/shuffle/random only; bound to numpy by conformance replays.' + COMMON_NOTE,
+    'DESIGN.md 3/C11, 8',
 )
 check(
     'C12',
-    'bounded exhaustive enumeration of (state, action, next state) triples against per-component reference formulas; BFS edge oracle over shipped configurations',
-    'Every built-in reward and termination component (default and non-default parameters, called directly and through '
-    'factory(name, **kw)) is evaluated on every triple of (a) the E1 universe with next states produced by the real '
-    'full chain under every random outcome and (b) all ordered pairs of a small state universe x all actions, and '
-    'compared with an independent reference; determinism and no use of the rng argument are checked; reduce_sum / '
-    'reduce_any / reduce_all over all subsets of <=3 parts equal the sum/any/all of the parts; on every explored edge '
-    'of the shipped configurations the environment reward equals the sum of the reference components named in the '
-    'YAML, done equals the reference termination and the exit reward is paid exactly when exit-termination fires.',
-    'Documented preconditions honoured (exactly one target object for distance rewards, a beacon for the memory reward).',
-    'DESIGN.md 3/C12',
-)
-check(
-    'C01',
-    'bounded exhaustive enumeration of states x actions x random outcomes through a real GridWorld with debug checks on; BFS of all reachable states of shipped configurations; single-fault mutation of space members',
-    'Every state of the E1 universe (agent on every cell incl. edges facing outward, any held item, unpaired telepods, '
-    'nested boxes) x all actions x every built-in transition function alone and the full chain x every random outcome is '
-    'stepped through GridWorld.functional_step: no exception, next state in the reference state space, finite real '
-    'reward, boolean termination (reduce_any and reduce_all), input unmodified; observations of all four observation '
-    'functions lie in the declared observation space; actions outside a restricted action space (and non-actions) '
-    'raise ValueError and change neither state nor generator; StateSpace/ObservationSpace.contains agree with a '
-    'reference predicate on every universe state and all its single-fault mutants; every reachable state of the '
-    'shipped configurations is searched breadth-first for exceptions and membership failures.',
-    'Compositions limited to the stated alphabet of built-in components; custom components out of scope.',
-    'DESIGN.md 3/C01',
-)
-check(
-    'C03',
-    'bounded exhaustive enumeration with deep-fingerprint / object-identity / differential-mutation oracles; exhaustive enumeration of cache histories (operation sequences) against cold answers',
-    'For every universe state, action, chain and outcome: the input fingerprint is unchanged, ids of all mutable '
-    'components of state and next state are disjoint, scrambling either afterwards leaves the other unchanged, every '
-    'reward/termination/observation component leaves its arguments unchanged, fast_copy equals and hashes like the '
-    'original. Every sequence (depth 3, thorough 4; depth 5 over the colliding table queries) over 13 questions that '
-    'collide on cache keys is answered identically to the cold answer, from cleared caches and after a prologue that '
-    'overflows the 10-entry shortest-path table, and cached results equal the uncached __wrapped__ computation.',
-    'Sharing of instance-stateless objects (Floor, Wall, MovingObstacle) is not counted as aliasing.',
-    'DESIGN.md 3/C03',
-)
-check(
-    'C05',
-    'bounded exhaustive enumeration of labelled grids x poses x view areas x observation functions against a reference rigid transform',
-    'Labelled grids (every cell a distinct object, so "the object at world cell q" is unambiguous) of every shape '
-    'H,W in 1..4 (thorough 1..5, non-square included) with every subset of up to 1-3 opaque cells x every agent cell x '
-    '4 headings x 193 view areas (symmetric and not, plus the shipped 7x7 view) x the four observation functions: '
-    'every observation cell is Hidden or equal to the object at the world cell given by the reference transform, '
-    'out-of-grid cells are Hidden, shape/anchor/heading/held item as specified, fully_transparent shows every in-grid '
-    'cell; the stochastic function is run with two extreme scripted draws and real numpy seeds.',
-    'partially_occluded only with the agent on the bottom view row (documented precondition).',
-    'DESIGN.md 3/C05',
-)
-check(
-    'C06',
-    'complete enumeration of all Wall/Floor opacity patterns of small views and worlds; reference flood fill, monotonicity and replacement (non-interference) oracles',
-    'All 2^(h*w) opacity patterns of views up to 3x5/4x3 (thorough 4x5) for partially_occluded (every bottom-row '
-    'anchor) and raytracing (every origin): own cell visible, every visible cell linked to the agent by adjacent '
-    'transparent visible cells, opening a visible opaque cell never hides a visible cell. All Wall/Floor worlds 2x3, '
-    '3x2, 3x3, 2x4, 4x2, 1x5 x agent on every floor cell x headings x areas: the shown cells satisfy the chain law and '
-    'replacing any hidden / out-of-view world cell by any of 5 objects leaves the observation unchanged. Stochastic '
-    'variant: extreme scripted draws give exactly the deterministic set and the every-ray-lit set; numpy seeds lie between.',
-    'The u == 0.0 draw (measure zero) is not modelled; stochastic lower bound uses the library ray fan (verified by C19).',
-    'DESIGN.md 3/C06',
-)
-check(
-    'C07',
-    'bounded exhaustive enumeration of labelled grids x poses x areas x deterministic observation functions compared across all four world rotations (harness index arithmetic)',
-    'For every labelled grid (shapes 1..4 x 1..4, opaque subsets), pose, view area and deterministic observation '
-    'function, the observation of the world rotated by 1, 2 and 3 quarter turns (grid and pose rotated together by the '
-    "harness's own index formula, not by Grid.__mul__) equals the observation of the original.",
-    'Bounds as reported.',
-    'DESIGN.md 3/C07',
-)
-check(
-    'C19',
-    'complete enumeration of areas x origins x rays; exhaustive cache-history sequences',
-    'Every area of size 1..7 x 1..7 (thorough 1..9) at two offsets x every origin x every ray of the fan: starts at the '
-    'origin, stays inside, no repeats, 8-adjacent steps, ends on the border; the fan covers every cell; cached == '
-    'uncached after all query sequences up to length 4 over 5 colliding queries; unobstructed ray-traced visibility '
-    'is all-true; two computations agree.',
-    'Areas beyond the bound are not covered.',
-    'DESIGN.md 3/C19',
+    'bounded exhaustive enumeration of (state, action, next state) triples against per-component reference formulas; in-place mutation histories; BFS edge oracle over shipped configurations',
+    'Every built-in reward/termination component (default and non-default parameters, direct and through factory) on every triple of '
+    'the universe with real next states and on all ordered pairs of a small state universe x all actions; determinism, no use of the '
+    'rng argument, value semantics after in-place change of an argument object, memory reward with several exits of the beacon '
+    'colour; composites over all subsets of <=3 parts; on every explored edge of the shipped configurations the environment reward '
+    'equals the sum of the reference components named in the YAML and the exit reward is paid exactly when exit-termination fires.',
+    'Documented preconditions honoured (exactly one target object for distance rewards, a beacon for the memory reward).' + COMMON_NOTE,
+    'DESIGN.md 3/C12, 8',
 )
 check(
     'C13',
-    'exhaustive exploration of each reset function\'s random-choice tree (scripted ChoiceRng, complete or deviation-bounded) over a parameter grid, with a well-formedness oracle; numpy conformance replays',
-    'For the 8 built-in reset functions and a parameter grid (shapes from 1x1 to 9x9 / 11x11 square and not, layouts, '
-    'obstacle and river counts incl. negative and too many, colour sets with and without NONE, beacon/exit counts, '
-    'flags, plus all shipped points) every random outcome is executed when the point has few enough, otherwise every '
-    'outcome with at most 2 non-default draws: the result must be a well-formed initial state (shape, wall boundary, '
-    'agent placement, inventory per function) or ValueError - any other exception or a malformed state is a '
-    'violation; shipped points must succeed. Real numpy seeds are replayed through the scripted generator.',
-    'Which unshipped points are valid is not decided by the oracle. Bounds reported in evidence.',
-    'DESIGN.md 3/C13',
+    'exhaustive exploration of each reset function\'s random-choice tree (complete or deviation-bounded) over a parameter grid with a well-formedness oracle; reset-mutate-reset histories; debug-flag independence; numpy conformance replays',
+    'For the 8 reset functions and a parameter grid (shapes 1x1..9x9 / 11x11, room layouts on sizes up to 40 / 71, counts incl. negative '
+    'and too many, colour sets, flags, all shipped points) every random outcome (or all with <=2 non-default draws) yields a '
+    'well-formed state or ValueError; the same call after an earlier returned state was scrambled in place returns the same fresh '
+    'state sharing no objects; results do not depend on the debug flag; numpy seeds are replayed through the scripted generator.',
+    'Which unshipped points are valid is not decided by the oracle.' + COMMON_NOTE,
+    'DESIGN.md 3/C13, 8',
 )
 check(
     'C14',
-    'exhaustive enumeration of initial states (reset choice tree) followed by explicit-state search of the real functional_step graph with backward closure from the goal; witness replay through the stateful interface',
-    'Every explored initial state of every valid parameter point (shapes 3x3..7x7 / 9x9 and all shipped points) is '
-    'decided winnable by searching all histories of the real step function (random dynamics outcomes as branches, '
-    'terminal states not expanded), sharing one explored graph per static grid; one witness per grid is replayed '
-    'through env.reset/step. Unwinnable memory_rooms states whose goal is reachable once the other exits are treated '
-    'as floor are the recorded known finding F7; anything else is a violation.',
-    'Dynamics per reset function = chain and termination of the shipped configuration using it; <=2 obstacles.',
-    'DESIGN.md 3/C14',
+    'exhaustive enumeration of initial states followed by explicit-state search of the real functional_step graph with backward closure from the goal; witness replay through the stateful interface of an environment object that already ran episodes',
+    'Every explored initial state of every valid parameter point (shapes 3x3..7x7 / 9x9, obstacle rivers with bump termination, all '
+    'shipped points) is decided winnable by searching all histories of the real step function (random outcomes as branches, terminal '
+    'states not expanded), one graph per static grid; one witness per grid is replayed through env.reset/step after earlier aborted '
+    'episodes on the same object. Unwinnable memory_rooms states whose goal is reachable once the other exits are floor are the '
+    'recorded known finding F7; anything else is a violation.',
+    'Dynamics per reset function = chain and termination of the shipped configuration using it; <=2 obstacles.' + COMMON_NOTE,
+    'DESIGN.md 3/C14, 8',
 )
 check(
     'C15',
-    'bounded exhaustive enumeration of spaces x members x representations with containment oracle; BFS over shipped configurations converting every reachable state/observation',
-    'For type subsets (sizes 1-3, the shipped sets, all 9; thorough all 511) x colour subsets x grid/view shapes x '
-    '{default, no-overlap, compact} x {state, observation}: every admitted object at every cell, every agent pose and '
-    'every held item is converted; each key must lie in its declared Space (shape, dtype class, bounds) and in the '
-    'gym-layer Dict space; state representations of spaces with Box must raise ValueError; every reachable '
-    'state/observation of the shipped configurations is converted under all representations.',
-    'Grid shapes >= 2x2, view shapes of odd width (quantifier of the property).',
-    'DESIGN.md 3/C15',
+    'bounded exhaustive enumeration of spaces x members x representations with containment oracle; re-check of earlier advertised spaces; gym-layer switching walk; BFS over shipped configurations converting every reachable state/observation',
+    'For type subsets (sizes 1-3, shipped sets, all 9; thorough all 511) x colour subsets x grid/view shapes x 3 encodings x '
+    '{state, observation}: every admitted object at every cell, every agent pose (also in observations), every held item lies in the '
+    'declared Space and the gym-layer Dict space; spaces advertised earlier still contain later conversions after representations of '
+    'other spaces (and a same-named class) were created; at the gym layer current observation/state lie in the advertised space after '
+    'every ordered representation switch; every reachable state/observation of shipped configurations is converted.',
+    'Grid shapes >= 2x2, view shapes of odd width (quantifier of the property).' + COMMON_NOTE,
+    'DESIGN.md 3/C15, 8',
 )
 check(
     'C16',
-    'bounded exhaustive enumeration of members with a per-object code table, positional comparison and exhaustive pairwise injectivity by bucketing on the byte image',
-    'For each space and encoding the per-object code table is extracted and checked (default = index triple; '
-    'no-overlap channels pairwise disjoint; compact consecutive from zero; distinct objects have distinct codes); for '
-    'every member (every object at every cell, every pose, held items, and all members with 2 non-default cells on '
-    'selected shapes) each grid entry equals the code of the object in that cell, the agent marker is one-hot at the '
-    'agent cell, the item channel is the held object code; two members share a representation iff they are equal, '
-    'copies equal and hash alike.',
-    'Injectivity decided by a 128-bit digest of the byte image over the enumerated universe.',
-    'DESIGN.md 3/C16',
-)
-check(
-    'C02',
-    'exhaustive enumeration of action trees, of all interleavings (merges) of per-environment operation lists, and of all iteration orders of set-typed parameters; cross-process digest comparison over PYTHONHASHSEED values',
-    'Twin environments (same data, same seed) are compared at every node of the complete action tree to depth 2-3 '
-    '(thorough 3-4) and along shortest paths to every reachable cell, together with a debug-flag-off twin and a '
-    'tripwire that detects any draw from / perturbation of the library generator, numpy global state or the random '
-    'module after every operation; all 25 200 merges of the operation lists of two equally seeded environments, an '
-    'unseeded one and global-noise operations must leave each seeded history equal to its solo run; set-typed '
-    'parameters are passed as a set subclass iterating in each of the n! orders; trajectory digests are compared '
-    'across fresh interpreter processes with different PYTHONHASHSEED.',
-    'Seeds and hash seeds are finite sets rotated by VERIF_SEED; GymEnvironment.seed() out of scope.',
-    'DESIGN.md 3/C02',
-)
-check(
-    'C04',
-    'exhaustive enumeration of operation sequences (reset / step / reads, inner and outer) replayed against a functionally driven twin with the same seed',
-    'All sequences of 3-5 (thorough 4-6) operations over {reset, 3 steps, read observation, read state, read outer '
-    'observation, read outer state}, including reads and steps before any reset, on shipped configurations and on a '
-    'synthetic configuration whose stepping and observing both consume randomness: after every operation the stateful '
-    'state, reward, flag, observation, numeric representations and the generator bit state equal those of a twin '
-    'driven only through functional_reset/step/observation (observation computed exactly once per state); repeated '
-    'reads consume no randomness; operations before the first reset raise RuntimeError.',
-    'Three actions per configuration, finite seed set (rotated by VERIF_SEED).',
-    'DESIGN.md 3/C04',
-)
-check(
-    'C20',
-    'exhaustive enumeration of gym-level operation sequences (action indices, resets, representation switches) against a twin inner environment',
-    'Every shipped configuration wrapped directly and every registered id (through gym.make and through the registered '
-    'entry point) is driven with all action-index sequences up to depth 1-3 (thorough 2-4), with a reset inserted at every '
-    'position and the observation representation switched at every position, also under GymStateWrapper; every returned '
-    'observation/state, reward, flag and info is compared with a twin inner environment (same file, same seed) stepped '
-    'with action_space.actions[i]; outputs must lie in the advertised spaces, which must follow representation switches.',
-    'seed()/render() out of scope in this image; gym.make with disable_env_checker=True.',
-    'DESIGN.md 3/C20',
+    'bounded exhaustive enumeration of members with a per-object code table, positional comparison, exhaustive pairwise injectivity by bucketing on the byte image (library == decides equality), aliasing and in-place-history checks',
+    'For each space (incl. type lists naming Hidden/NoneGridObject/duplicates, a registered Key subclass, boxes with different '
+    'contents) and encoding: code table (default = index triple; no-overlap channels disjoint; compact consecutive from zero; distinct '
+    'objects distinct codes); each grid entry equals the code of its object, agent marker one-hot at the agent cell (any cell), item '
+    'channel = held code; members share a representation iff the library calls them equal; copies equal/hash alike, also after '
+    'in-place door opening; arrays returned earlier are not overwritten later.',
+    'Injectivity decided by a 128-bit digest of the byte image over the enumerated universe.' + COMMON_NOTE,
+    'DESIGN.md 3/C16, 8',
 )
 check(
     'C17',
-    'product (lockstep) exploration of each built configuration against an independently hand-assembled environment over complete action trees; exhaustive single-point corruption of every node of every configuration tree; exhaustive registry enumeration',
-    'Packaged copies are byte-identical, the id table is a bijection consistent with each id\'s name and size and every '
-    'registered spec resolves to its file; every shipped configuration (yaml/, the coin example) and a non-square '
-    'variant of it, built through factory_env_from_data and factory_env_from_yaml, runs in lockstep (all action '
-    'sequences to depth 2-3, thorough 3-4, several seeds; states, observations, rewards, flags, spaces) with an '
-    'environment assembled by an independent assembler; building leaves the tree unchanged and is repeatable; for '
-    'each of the 45 registered component names factory(name, **kw) equals the function called with the accepted '
-    'parameters, ignores unaccepted ones and raises ValueError for missing required ones / unknown names; every '
-    'single-point corruption (delete key, rename component, malformed shape/colour/action/object) at every node is '
-    'rejected with SchemaError/ValueError or - when only an optional/unaccepted parameter vanished - builds the '
-    'environment the assembler builds from the same tree.',
-    'YAML parsed by the strict subset shim when PyYAML is absent; areas and bool-for-int outside the operator alphabet.',
-    'DESIGN.md 3/C17',
+    'product (lockstep) exploration of each built configuration and of systematic valid variants against an independently hand-assembled environment; exhaustive single-point corruption of every node of every configuration tree under both debug-flag values; exhaustive registry enumeration',
+    'Packaged copies byte-identical, id table a bijection consistent with name and size; every shipped configuration and its variants '
+    '(non-square shape/layout, reversed and partial action lists, differing observation_space section, nested visibility spec) built '
+    'through both builders run in lockstep (action trees + directed paths with object actions, contains-probes, spaces) with an '
+    'independent assembler; inputs unchanged, building repeatable; 45 registered names: factory(name, **kw) equals the function with '
+    'accepted / zero-valued parameters, ignores unaccepted ones, raises for missing/unknown under both debug flags; every '
+    'single-point corruption (delete key, rename, malformed shape/colour/action/object, zero/flip numeric leaves) is rejected with '
+    'SchemaError/ValueError or builds what the assembler builds.',
+    'YAML parsed by the strict subset shim when PyYAML is absent; areas and bool-for-int outside the operator alphabet.' + COMMON_NOTE,
+    'DESIGN.md 3/C17, 8',
+)
+check(
+    'C18',
+    'bounded exhaustive enumeration of algebraic law instances on the real geometry classes, incl. mutation/aliasing histories, one process per heading for the area law',
+    'Group/action/transform/area/grid laws on all orientation triples, all positions of a box plus extreme coordinates, all transform '
+    'triples, all areas with bounds in [-2,2], labelled grids up to 4x4; rotation results compared with harness index arithmetic; '
+    'negation and identity-composition under in-place mutation (no aliasing, no stale inverse); every pose x area product evaluated '
+    'in one process per heading (colliding cache keys).',
+    'Coordinates are unbounded integers: the box and extremes are a bound; generalisation beyond is an assumption.' + COMMON_NOTE,
+    'DESIGN.md 3/C18, 8',
+)
+check(
+    'C19',
+    'complete enumeration of areas x origins x rays; exhaustive cache-history sequences; cache-pressure job with second pass; large unobstructed views',
+    'Every area 1..7 x 1..7 (thorough 1..9) at two offsets x every origin x every ray: starts at the origin, stays inside, no repeats, '
+    '8-adjacent steps, ends on the border; fan covers every cell; cached == uncached after all query sequences up to length 4 over 5 '
+    'colliding queries, for all origins of an area in one process, and when asked again after more than 128 other queries; '
+    'unobstructed ray-traced visibility all-true incl. views with 256/512 rays.',
+    'Areas beyond the bound are not covered.' + COMMON_NOTE,
+    'DESIGN.md 3/C19, 8',
+)
+check(
+    'C20',
+    'exhaustive enumeration of gym-level operation sequences (action indices, resets, representation switches) against a twin inner environment; output snapshots and aliasing checks; two environments per id',
+    'Every shipped configuration wrapped directly and every registered id (gym.make and entry point) driven with all action-index '
+    'sequences to depth 1-3 (thorough 2-4) with a reset at every position and observation/state representation switches at every '
+    'position, also under GymStateWrapper; every returned value (snapshotted at once) and the observation/state properties equal the '
+    'twin\'s, lie in the advertised spaces which follow switches, and are not overwritten later; a state wrapper without a state '
+    'representation fails loudly; two live environments of one id are independent.',
+    'seed()/render() out of scope in this image; gym.make with disable_env_checker=True.' + COMMON_NOTE,
+    'DESIGN.md 3/C20, 8',
 )
